@@ -197,6 +197,31 @@ def reducers(ctx):
         else:
             r.fail(f.qualname, f"axis:{axis},{nd}", f.file, f.lineno, "_KeepsFeAxes", f"_KeepsFeAxes({axis}, ndim={nd}) is {got}, expected {want}")
 
+    # _FeShape: the (Ne, nPg) an operation runs at is the numpy broadcast of its FeArray operands' leading shapes
+    from ..femchain import XFe
+    from ..alg import Q as _Q
+
+    g = repo.func(f"{LA}._FeShape")
+    mk = lambda ne, npg, *t: XFe((ne, npg) + t, [_Q(0)] * (ne * npg * max(1, __import__("math").prod(t))))
+    plain = XArray((2, 2), [_Q(0)] * 4)
+    shape_cases = [
+        ([mk(5, 1, 2), mk(1, 4, 2)], (5, 4)),
+        ([mk(1, 4), mk(5, 1, 3, 3)], (5, 4)),
+        ([mk(1, 1, 2), mk(5, 4, 2)], (5, 4)),
+        ([mk(5, 4), mk(5, 4, 2, 2)], (5, 4)),
+        ([mk(5, 1), mk(5, 4), mk(1, 1)], (5, 4)),
+        ([plain, [mk(1, 3), (mk(2, 1, 2),)]], (2, 3)),
+        ([plain, 1], ()),
+    ]
+    for ops, want in shape_cases:
+        r.instance(fn=g.qualname)
+        desc = ", ".join(str(getattr(o, "shape", "..")) for o in ops)
+        got = I.call_function(g, [ops])
+        if tuple(got) == want:
+            r.ok(f"_FeShape({desc}) = {want}")
+        else:
+            r.fail(g.qualname, f"feshape:{desc}", g.file, g.lineno, "_FeShape", f"_FeShape of operands with shapes ({desc}) is {tuple(got)}, expected the broadcast {want}: a per-element field combined with a per-point field through a non-elementwise route comes back as a plain ndarray (or with the wrong leading shape) and is re-read as a constant tensor")
+
 
 def broadcast_rule(ctx):
     repo = ctx.repo
